@@ -10,6 +10,7 @@ from dask_expr._expr import Blockwise, Expr, Projection, plain_column_projection
 class CumulativeAggregations(Expr):
     _parameters = ["frame", "axis", "skipna"]
     _defaults = {"axis": None}
+    _is_length_preserving = True
 
     chunk_operation = None
     aggregate_operation = None
